@@ -24,14 +24,15 @@ sys.path.insert(0, os.path.join(VERIF, "harness", "C06"))
 import progs as P  # noqa: E402
 
 THEOREMS = [
-    "JanetModel.Props.C06.queue_refines_list",
     "JanetModel.Props.C06.give_blocks_iff",
     "JanetModel.Props.C06.take_blocks_iff",
+    "JanetModel.Props.C06.fifo_per_channel_partial",
     "JanetModel.Props.C06.select_exactly_one",
     "JanetModel.Props.C06.close_wakes_all",
     "JanetModel.Props.C06.conservation",
-    "JanetModel.Props.C06.fifo_per_channel",
-    "JanetModel.Props.C06.no_lost_wakeup",
+    "JanetModel.Props.C06.nothing_twice",
+    "JanetModel.Props.C06.no_lost_wakeup_partial",
+    "JanetModel.Props.C06.current_source_checks",
     "JanetModel.Props.C06.select_give_to_waiting_taker_sticks",
     "JanetModel.Props.C06.take_wakes_stale_select_writer",
     "JanetModel.Props.C06.close_wakes_stale_select_waiter",
@@ -124,7 +125,7 @@ def gen_programs(ctx, quick, boost):
         items.append(("corpus-" + name, 0, prog))
     dist["corpus"] = len(items)
     fams = [  # (nch, total ops, quick sample, max_clauses)
-        (1, 1, None, 2), (1, 2, None, 2), (1, 3, None if not quick else 4000, 2), (1, 4, 3000 if quick else None, 2),
+        (1, 1, None, 2), (1, 2, None, 2), (1, 3, None, 2), (1, 4, 3000 if quick else None, 2),
         (2, 1, None, 2), (2, 2, 3000 if quick else None, 2), (2, 3, 2500 if quick else 150000, 2),
         (3, 2, 1500 if quick else 60000, 2), (2, 4, 1500 if quick else 100000, 2), (3, 4, 1000 if quick else 60000, 1),
     ]
